@@ -4,7 +4,7 @@ C08 - sum and product mixtures equal the stated combination of their parts.
 Space (E1, programs x inputs): ALL ordered assignments of a component alphabet to the expression shapes
 A+B, A*B, A+B+C, A*B*C, A+B*C, A*B+C (and the 4-leaf shapes A+B+C+D, A*B+C*D on a smaller alphabet).  One
 case = one program; inside it EVERY combination of at most D dimensions off default is executed:
-per part {non-default values, dispersity, magnetism, intensity exactly zero}, and globally {2-D data,
+per part {non-default values, size dispersity or (2-D) orientation jitter, magnetism, intensity exactly zero}, and globally {2-D data,
 non-default spin state}.  Because every ordered assignment and every per-part deviation is enumerated, every
 permutation of a multiset of parts (with permuted settings) is in the space and is judged against the same
 commutative oracle: order independence is decided by construction.
@@ -272,8 +272,10 @@ def run_case(case, ctx):
         k, name = lf["k"], lf["leaf"]
         slds, pd = leaf_dims(name)
         dims.append(("val:%d" % k, 0, [1]))
-        if pd:
-            dims.append(("pd:%d" % k, None, [pd[0]]))
+        oriented = bool(build.info(name).parameters.orientation_parameters)
+        if pd or oriented:
+            # size dispersity; for oriented parts also jitter (applied for 2-D data only, where it is defined)
+            dims.append(("pd:%d" % k, None, pd[:1] + (["theta"] if oriented else [])))
         if slds and not is_py(name):
             dims.append(("mag:%d" % k, 0, [1]))
         if len(slds) >= 2:
@@ -298,7 +300,12 @@ def run_case(case, ctx):
             k, name = lf["k"], lf["leaf"]
             slds, pd = leaf_dims(name)
             own = leaf_base(name, k, ctx.factor(k) if cfg.get("val:%d" % k) else 1.0)
-            if cfg.get("pd:%d" % k):
+            if cfg.get("pd:%d" % k) == "theta":
+                if dim == "2d":
+                    own.update({"theta_pd": 8.0 + 3.0 * k, "theta_pd_n": 3, "theta_pd_type": "gaussian",
+                                "theta_pd_nsigma": 2.0})
+                    br.append("part-jitter-2d")
+            elif cfg.get("pd:%d" % k):
                 nm = cfg["pd:%d" % k]
                 own.update({nm + "_pd": 0.1 + 0.03 * k, nm + "_pd_n": 3, nm + "_pd_type": "gaussian",
                             nm + "_pd_nsigma": 2.0})
@@ -424,3 +431,4 @@ def finish(ctx, report):
     report.require("zero-part", 100, "a part whose intensity is exactly zero")
     report.require("zero-part-in-product", 50, "exactly-zero part inside a product")
     report.require("magnetic-part-2d", 50, "magnetic part, 2-D")
+    report.require("part-jitter-2d", 20, "orientation dispersity of an oriented part, 2-D")
